@@ -42,7 +42,7 @@ PROOF_TEXT = ("Every counted obligation is a contract clause (Kani ensures / har
               "or a Verus postcondition) on the real function text, discharged on every run for all inputs; "
               "bounded stand-ins are listed separately in coverage.bounded and never counted. ")
 
-_p("C01", probes_quick=["tracker_history", "visual_voting"],
+_p("C01", probes_quick=["tracker_history", "visual_voting", "tracker_kinds"],
    level_text=PROOF_TEXT + "Decides the per-call clauses of C01: what a record echoes, what the attribute update/merge write, and that the id source of the simple trackers is strictly increasing.",
    level_note="Verus: gen_track_id extract (structs + fns verbatim; opaque stand-ins for the field types). Kani: record construction, apply, merge over full domains. NOT covered: one record per detection in order, distinct ids within a call, batch trackers' shared counter (predict / voting threads: worker threads, HashMap winners).",
    technique="Verus postconditions on verbatim extracts + Kani proof harnesses (loop-free, full f32/usize domain)",
@@ -56,14 +56,14 @@ _p("C02", probes_quick=["sort_voting", "tracker_history"],
    assumptions=K,
    not_covered=["maximum-weight one-to-one assignment (SortVoting::winners uses HashMap/HashSet, &mut-capturing closures and an external Hungarian solver)",
                 "the IoU / Mahalanobis numbers themselves (nonlinear f32/f64 kernels are stubs with range contracts)"])
-_p("C03", probes_quick=["tracker_history", "tracker_lifecycle_c03"], probes_thorough=["sort_history"],
+_p("C03", probes_quick=["tracker_history", "tracker_lifecycle_c03", "tracker_kinds"], probes_thorough=["sort_history"],
    level_text=PROOF_TEXT + "Decides expiry arithmetic (Wasted exactly when last_update + max_idle < scene epoch), epoch advance by one / by n for the addressed scene, what the two shard statistics read, that set_auto_waste resets the counter, that an expired or foreign-scene pair is never compatible, and length +1 per attached detection.",
    level_note="EpochDb / TrackerAPI via verbatim extract under a shim lock (no poisoning; guard hands out the stored value). NOT covered: conservation / handed-out-exactly-once over histories, GC-timing independence, idle_tracks listing (store worker threads); the written-back epoch map (other scenes untouched) is only covered by the bounded replay probe.",
    technique="Verus postconditions on verbatim extracts (EpochDb, TrackerAPI) and in place (update_history); Kani recording-stub harness on compatible()",
    assumptions=K + V,
    not_covered=["conservation of tracks / wasted exactly once over call histories", "independence from the periodic collection", "idle_tracks listing",
                 "frame of the epoch writers (other scenes' epochs untouched): bounded probe only"])
-_p("C04", probes_quick=["tracker_history", "tracker_lifecycle_c03"],
+_p("C04", probes_quick=["tracker_history", "tracker_lifecycle_c03", "tracker_kinds"],
    level_text=PROOF_TEXT + "Decides the per-call part of scene isolation: tracks of different scenes are never compatible (for all epochs, boxes, options), an update writes exactly the candidate's scene, epoch reads/advances address exactly the given scene.",
    level_note="NOT covered: the two-run non-interference statement (a hyperproperty over histories) and zero columns in the assignment matrix.",
    technique="Kani recording-stub harness on compatible()/apply; Verus postconditions on EpochDb extract",
